@@ -918,3 +918,30 @@ def _pkg_rename_private_functions(srcs):
 
 
 VARIANTS.append(dict(id='PKG_S_rename_private_functions', props=ALL + ['C05'], file='*', expect=[], kind='silent', where='', pkg_all_fn=_pkg_rename_private_functions))
+
+
+# ---- package-wide: undecorated methods of every class (and module-level functions) re-ordered (reverse alphabetical)
+def _pkg_sort_definitions(srcs):
+    out = {}
+    n = 0
+    for fn, text in srcs.items():
+        if fn.endswith('luts.py'):
+            out[fn] = text
+            continue
+        t = ast.parse(text)
+        changed = False
+        for c in [x for x in ast.walk(t) if isinstance(x, ast.ClassDef)] + [t]:
+            dec = {s.name for s in c.body if isinstance(s, ast.FunctionDef) and s.decorator_list}
+            plain = [s for s in c.body if isinstance(s, ast.FunctionDef) and not s.decorator_list and s.name not in dec]
+            if len(plain) < 2 or len({s.name for s in plain}) != len(plain):
+                continue
+            first = min(c.body.index(s) for s in plain)
+            rest = [s for s in c.body if s not in plain]
+            c.body = rest[:first] + sorted(plain, key=lambda s: s.name, reverse=True) + rest[first:]
+            changed = True
+        out[fn] = ast.unparse(t) + '\n' if changed else text
+        n += changed
+    return out if n else None
+
+
+VARIANTS.append(dict(id='PKG_S_sort_definitions', props=ALL + ['C05'], file='*', expect=[], kind='silent', where='', pkg_all_fn=_pkg_sort_definitions))
